@@ -73,14 +73,22 @@ CLAIMED = {
 # rules shared between checks (checker/main.go sharedRules): the borrowing property's level text gets this addendum
 SHARED = {
  "C01": "Also enforces (shared with C14.R1/R2) that cache and pending entries are clones on the way in and on the way out.",
- "C03": "Also enforces (shared with C04.R4) that a schema is published only with its transformer list rebuilt, so uniqueness is judged on normalised values after a reopen.",
+ "C03": "Also enforces (shared with C04.R4) that a schema is published only with its transformer list rebuilt, so uniqueness is judged on normalised values after a reopen; and that no insertion entry rolls an accepted replacement back by un-indexing.",
+ "C04": "Also enforces (shared with C10.R7) that a delete drops the pending write of its object, so that no file of a deleted object is written after the fact.",
+ "C05": "Also enforces that a stale temporary never blocks a later write (open flags), and (shared with C11.R6) that the schema control cannot succeed without both inclusion loops.",
+ "C06": "Also enforces (shared with C05.R5) that a temporary left by a failed write is not taken for an object file by the integrity control, and that every validating iteration assigns the element its identifier.",
+ "C07": "Also enforces (shared with C08.R3) that validation and insertion of a batch happen in one critical section.",
+ "C09": "Also enforces (shared with C13.R6) that the iterator advances on every path, including read errors, which the bulk delete under the write lock relies on to terminate.",
+ "C11": "Also enforces (shared with C18.R1, uuid pattern) that the file discovery accepts every identifier the write path can produce, that ordering/size failures are not of the repairable class, and that only %w-wrapped sentinels count as the error class.",
  "C15": "Also enforces (shared with C04.R4) that a schema is published only with its transformer list rebuilt.",
  "C16": "Also enforces (shared with C04.R4) that a schema is published only with its transformer list rebuilt.",
- "C08": "Also enforces (shared with C10.R5) that the flusher re-checks the context and flushes inside one write-locked section (no check-then-act against Close/Drop).",
- "C12": "Also enforces (shared with C01.R2) that deletes evict cache and pending entries under every cache/async valuation.",
- "C13": "Also enforces (shared with C02.R5) that nothing writes through a slice aliasing the live field index.",
- "C18": "Also enforces (shared with C16.R4) the struct-tag word to constraint-flag table of the pinned release, since descriptors are serialised and compared on Create.",
- "C19": "Also enforces (shared with C17.R2 and C11.R3) that a schema is published only after a successful control or a corrupted-index verdict, which the index-panic dispositions rely on.",
+ "C08": "Also enforces (shared with C10.R5) that the flusher re-checks the context and flushes inside one write-locked section, and (C08.R3) that no live-index mutation relies on a verdict obtained before the handle lock was released.",
+ "C12": "Also enforces (shared with C01.R2) that deletes evict cache and pending entries under every cache/async valuation, and that an empty constraint stays a constraint in both evaluators.",
+ "C13": "Also enforces (shared with C02.R5) that nothing writes through a slice aliasing the live field index, that the sorted slice is only written by sorted insertion / compaction / reset / decoder, and that the iterator always advances.",
+ "C17": "Also enforces (shared with C10.R8) that the settings' private 'flusher started' flag is never duplicated by a value copy, and that Create never writes layout fields of the stored schema.",
+ "C18": "Also enforces (shared with C16.R4) the struct-tag word to constraint-flag table of the pinned release, and (shared with C17.R6) that Create never changes Extension / Compress / Fields of a stored schema. The value-level directory-name mapping (camelToSnake) is not decided.",
+ "C19": "Also enforces (shared with C17.R2, C11.R3, C11.R7, C02.R4) that a schema is published only after a successful control or a membership-corruption verdict, and that the class guard lies on every path to the comparators.",
+ "C02": "Also enforces that the indexed pattern search returns only entries appended under a successful MatchString.",
 }
 
 NOT_BUILT = "check not built yet in this round (planned, see DESIGN.md section 4)"
